@@ -3,6 +3,7 @@ import Glas.Props.C10Collect
 #print axioms Glas.Props.C10.parser_no_precondition_panic
 #print axioms Glas.Props.C10.parser_terminates
 #print axioms Glas.Props.C10.parse_total
+#print axioms Glas.Props.C10.parse_always
 #print axioms Glas.Props.C10Collect.collect_ok
 #print axioms Glas.Props.C10Collect.collect_total
 #print axioms Glas.Props.C10Collect.collect_caches
